@@ -1,10 +1,11 @@
 SPECIFICATION Spec
 CONSTANTS
   Anys = {1, 2, 3}
-  Types = {"Small", "Big", "STM", "NC", "Int", "Str", "CStr", "Fn", "Sp", "Ov", "Nest"}
+  Types = {"Small", "Big", "STM", "NC", "Int", "Str", "CStr", "Fn", "Sp", "Ov", "Nest", "Ov32", "Ov64", "P16", "P17"}
   Vals = {1, 2, 3}
   Fuses = {0, 0, 1, 2}
-  InPlaceTypes = {"Small", "NC", "Int", "CStr", "Fn", "Sp"}
-  NothrowMove = {"Small", "Big", "NC", "Int", "Str", "CStr", "Fn", "Sp", "Ov", "Nest"}
+  AFuses = {0, 0, 0, 1}
+  InPlaceTypes = {"Small", "NC", "Int", "CStr", "Fn", "Sp", "P16"}
+  NothrowMove = {"Small", "Big", "NC", "Int", "Str", "CStr", "Fn", "Sp", "Ov", "Nest", "Ov32", "Ov64", "P16", "P17"}
   SelfSwapGuard = TRUE
   EmitMode = "none"
